@@ -170,10 +170,13 @@ class RepetitionOperator(Operator):
         # etc.
         equivalent_k = min(self._k, divisor + self._k % divisor)
         assert (self._k % divisor) == (equivalent_k % divisor), (divisor, self._k)
-        return {
-            (sum(el) % divisor)
-            for el in itertools.combinations_with_replacement(self._child.modulo(divisor), equivalent_k)
-        }
+        # The k-fold multiset sums are accumulated one addend at a time modulo the divisor, which keeps the cost
+        # polynomial in the divisor. Enumerating the multicombinations explicitly is combinatorial in both.
+        single = self._child.modulo(divisor)
+        out = {0}
+        for _ in range(equivalent_k):
+            out = {(x + y) % divisor for x in out for y in single}
+        return out
 
     @property
     def min(self) -> int:
@@ -207,10 +210,12 @@ class RangeRepetitionOperator(Operator):
         # This holds only if the argument does not contain repeated entries which is guaranteed by `set`.
         equivalent_k_max = min(self._k_max, divisor + self._k_max % divisor)
         assert (self._k_max % divisor) == (equivalent_k_max % divisor), (divisor, self._k_max)
-        out = set()  # type: typing.Set[int]
-        for k in range(equivalent_k_max + 1):
-            for el in itertools.combinations_with_replacement(single, k):
-                out.add(sum(el) % divisor)
+        # Accumulate the k-fold sums for every k in [0, k_max] one addend at a time modulo the divisor (see above).
+        out = {0}
+        k_fold = {0}
+        for _ in range(equivalent_k_max):
+            k_fold = {(x + y) % divisor for x in k_fold for y in single}
+            out |= k_fold
         return out
 
     @property
